@@ -6,6 +6,8 @@ R30a  in check_missed_reader_deadline and check_missed_writer_deadline, on the e
 R30b  the advance is by one deadline period
 R30c  total_count and total_count_change are incremented together, and the status condition is raised
       for every counted miss
+R30e  the deadline checkers visit every entity and every instance: a scan loop is left only when its iterator is exhausted,
+      never through a `break` into the enclosing scan
 """
 from vplib import expr as E
 from vplib.facts import short_ty, path_endswith
@@ -108,8 +110,42 @@ def check_fn(fx, rep, name, status_field, kind):
     return n
 
 
+def scans_are_complete(fx, rep, names):
+    """R30e: the deadline checkers visit every entity and every instance: a `for` loop of these functions is left only through
+    the end of its iterator (the None arm of `next()`), never through a `break` of the body into the enclosing scan — an early exit
+    leaves the instances after it unchecked, their misses are never counted (a `return` that abandons the whole check is not
+    decided here)."""
+    n = 0
+    for nm in names:
+        b = fx.fn("DcpsDomainParticipant", nm)
+        fc = FnCtx(b)
+        m = fc.mir
+        loops = m.natural_loops()
+        for h, body in sorted(loops.items()):
+            # the block that tests the iterator's next() for this loop
+            tests = [bb for bb in body if bb in fc.ces and fc.ces[bb].expr[0] == "discr" and E.is_call(fc.ces[bb].expr[1], "Iterator::next")
+                     and not fc.ces[bb].expr[1][4] and any(s not in body for s in m.succ(bb))]
+            if not tests:
+                continue
+            n += 1
+            # exits that stay inside an enclosing loop (`break` out of the instance scan into the entity scan); an exit that
+            # leaves every loop (`return` when an entity has vanished) ends the whole check and is not what this rule is about
+            outer = set()
+            for h2, body2 in loops.items():
+                if h2 != h and body < body2:
+                    outer |= body2
+            early = [(bb, s) for bb in sorted(body) for s in m.succ(bb)
+                     if s not in body and bb not in tests and not m.blocks[s].cleanup and s in outer]
+            adder(rep, b)("R30e", "the scan loop is left only when its iterator is exhausted", not early,
+                          "the loop can be left early through %s: entities / instances after that point are never checked for a missed deadline"
+                          % [(x, m.blocks[x].term.line) for x, _ in early][:3], m.blocks[h].term.line)
+    return n
+
+
 def run(ctx, rep):
     fx = ctx.facts
+    ne = scans_are_complete(fx, rep, ("check_missed_reader_deadline", "check_missed_writer_deadline"))
+    rep.floor("R30e", ne, 4, "scan loops of the deadline checkers")
     n1 = check_fn(fx, rep, "check_missed_reader_deadline", "requested_deadline_missed_status", "RequestedDeadlineMissed")
     n2 = check_fn(fx, rep, "check_missed_writer_deadline", "offered_deadline_missed_status", "OfferedDeadlineMissed")
     rep.floor("R30a", n1 + n2, 2, "deadline miss conditions (reader + writer)")
